@@ -34,6 +34,8 @@ func main() {
 		return
 	case "worker":
 		os.Exit(worker(os.Args[2:]))
+	case "sqlchild":
+		os.Exit(checks.SQLChild())
 	case "c18child":
 		if len(os.Args) < 4 {
 			os.Exit(2)
